@@ -331,11 +331,18 @@ def r35_worklist(ctx, chk, rule3="C07.3", rule5="C07.5"):
                 and st.value.func.value.id == pending and isinstance(st.targets[0], ast.Name):
             pop_var = st.targets[0].id
     ploops = [n for st in W.body for n in ast.walk(st) if isinstance(n, ast.For)]
+    if ploops and pop_var is None:
+        it0 = ploops[0].iter
+        if isinstance(it0, ast.Subscript) and isinstance(it0.slice, ast.Call) and isinstance(it0.slice.func, ast.Attribute) \
+                and it0.slice.func.attr in ("pop", "popleft") and isinstance(it0.slice.func.value, ast.Name) and it0.slice.func.value.id == pending:
+            pop_var = "<inline pop>"
     if pop_var is None or not ploops:
         chk.undecided(rule5, g.where(W), "worklist body does not have the shape `x = %s.pop(); for p in table[x]: ...`" % pending)
         return
     P = ploops[0]
     it = P.iter
+    if pop_var == "<inline pop>":
+        it = ast.Subscript(value=it.value, slice=ast.Name(id=pop_var, ctx=ast.Load()), ctx=ast.Load())
     if isinstance(it, ast.Subscript) and isinstance(it.slice, ast.Slice):
         chk.violation(rule5, g.where(P), "only a slice of the predecessors is examined: `%s`" % src(it),
                       expected="for p in %s[%s]" % (s.s_table, pop_var), found=norm_stmt(P), construct="%s predecessor loop sliced" % g.short)
@@ -516,6 +523,10 @@ def r4_result(ctx, chk, rule="C07.4"):
     elif isinstance(compr, ast.BinOp) and isinstance(compr.op, ast.Sub) and isinstance(compr.left, ast.Name) \
             and compr.left.id == s.visited_name and _is_set_of(compr.right, s.finals, cfg, ret):
         chk.ok(rule, f.where(compr), "result = %s - set(%s)" % (s.visited_name, s.finals))
+    elif isinstance(compr, ast.Call) and isinstance(compr.func, ast.Attribute) and compr.func.attr == "difference" and isinstance(compr.func.value, ast.Name) \
+            and compr.func.value.id == s.visited_name and len(compr.args) == 1 and (
+                (isinstance(compr.args[0], ast.Name) and compr.args[0].id == s.finals) or _is_set_of(compr.args[0], s.finals, cfg, ret)):
+        chk.ok(rule, f.where(compr), "result = %s.difference(%s)" % (s.visited_name, s.finals))
     elif (isinstance(compr, ast.Name) and compr.id == s.visited_name) or \
             (isinstance(compr, ast.Call) and call_name(compr) in ("list", "sorted") and compr.args and isinstance(compr.args[0], ast.Name)
              and compr.args[0].id == s.visited_name):
@@ -555,63 +566,110 @@ def r6_reversed_table(ctx, chk, rule="C07.6"):
     tl = ("v", f.params[0])
     where = f.where()
     ret = sx.ret
-    # expected chain: res(L_missing, dict) <- init res(L_group, dict) <- source res(L_outer, list) <- inner COLLECT
+    fn_of = lambda name: ctx.prog.funcs.get("reverse_dfs.py::" + name, f)
     if ret[0] != "res":
         chk.undecided(rule, where, "reverse_transition_list does not return the result of the completion loop: %s" % show(ret))
         return
+    # ---- (1) completion: every state gets an entry ------------------------------------------------------------
     Lm = sx.loops[ret[1]]
-    # completion loop
-    rng = Lm.source
-    n_ok = rng == ("call", "range", (("call", "len", (tl,), ()),), ())
-    if not n_ok:
-        ok_alt = rng[0] == "call" and rng[1] == "range" and len(rng[2]) == 2 and rng[2][0] == C(0) and rng[2][1] == ("call", "len", (tl,), ())
-        if not ok_alt:
-            chk.violation(rule, ctx.prog.funcs.get("reverse_dfs.py::add_missing_states", f).where(Lm.node),
-                          "the completion loop covers `%s`, not range(len(transition_list)): some state has no entry in the reversed table" % show(rng),
-                          expected="range(len(%s))" % f.params[0], found=show(rng), construct="add_missing_states range")
-            return
     v = ret[2]
+    acc, e = ("acc", Lm.id, v), ("elem", Lm.id)
     up = Lm.update[v]
-    acc = ("acc", Lm.id, v)
-    e = ("elem", Lm.id)
-    want = simp(("ite", simp(("cmp", "notin", e, acc)), ("setitem", acc, e, ("list", ())), acc))
-    if up != want or Lm.has_break or Lm.has_return:
-        chk.undecided(rule, where, "completion loop update not in the form `if s not in d: d[s] = []`: %s" % show(up))
+    n_states = ("call", "len", (tl,), ())
+    full_range = (("call", "range", (n_states,), ()), ("call", "range", (C(0), n_states), ()))
+    base_dict = Lm.init[v]
+    cw = fn_of("add_missing_states").where(Lm.node)
+    if Lm.has_break or Lm.has_return or Lm.cont != FALSE:
+        chk.violation(rule, cw, "the completion loop exits early: some state has no entry in the reversed table", expected="every state", found="early exit", construct="add_missing_states early exit")
         return
-    chk.ok(rule, where, "completion: for s in range(len(%s)): if s not in table: table[s] = [] (every state has an entry)" % f.params[0])
-    init = Lm.init[v]
-    if init[0] != "res":
-        chk.undecided(rule, where, "completion loop does not start from the grouping result: %s" % show(init))
-        return
-    Lg = sx.loops[init[1]]
-    gv = init[2]
-    gacc = ("acc", Lg.id, gv)
-    ge = ("elem", Lg.id)
-    k, val = simp(("idx", ge, C(0))), simp(("idx", ge, C(1)))
-    gwant = simp(("ite", simp(("cmp", "notin", k, gacc)), ("setitem", gacc, k, ("list", ())), gacc))
-    gup = Lg.update[gv]
-    appends = [x for x in Lg.effects if x[1] == "call" and x[2][0] == "mcall" and x[2][2] == "append"]
-    good_append = [x for x in appends if x[0] == TRUE and x[2][1][0] == "idx" and x[2][1][2] == k and x[2][3] == (val,)]
-    gf = ctx.prog.funcs.get("reverse_dfs.py::list_of_tuples_to_dict_of_lists", f)
-    if not Lg.whole or Lg.has_break or Lg.has_return or Lg.cont != FALSE:
-        chk.violation(rule, gf.where(Lg.node), "the grouping loop does not process every reversed pair (slice / break / continue)",
-                      expected="one append per pair", found=norm_stmt(Lg.node), construct="grouping loop partial")
-        return
-    if gup != gwant or len(good_append) != 1 or len(appends) != 1:
-        if appends and not good_append:
-            a = appends[0]
-            chk.violation(rule, gf.where(Lg.node), "grouping appends `%s` under condition `%s`; specification: table[pair[0]].append(pair[1]) for every pair (multiplicity kept)" % (show(a[2]), show(a[0])),
-                          expected="unconditional table[t].append(s) per pair (t, s)", found=show(a[2]) + " if " + show(a[0]), construct="grouping append")
+    formA = Lm.source in full_range and up == simp(("ite", simp(("cmp", "notin", e, acc)), ("setitem", acc, e, ("list", ())), acc))
+    formB = False
+    rng = Lm.source
+    if Lm.source[0] == "compr":
+        Lc = sx.loops[Lm.source[1]]
+        ce = ("elem", Lc.id)
+        if Lc.elt == ce and Lc.filters == [simp(("cmp", "notin", ce, base_dict))] and up == ("setitem", acc, e, ("list", ())):
+            formB = Lc.source in full_range
+            rng = Lc.source
+    if not (formA or formB):
+        if rng[0] == "call" and rng[1] == "range" and rng not in full_range:
+            chk.violation(rule, cw, "the completion loop covers `%s`, not range(len(transition_list)): some state has no entry in the reversed table" % show(rng),
+                          expected="range(len(%s))" % f.params[0], found=show(rng), construct="add_missing_states range")
         else:
-            chk.undecided(rule, gf.where(Lg.node), "grouping loop not in the form `if k not in d: d[k] = []; d[k].append(v)`: %s" % show(gup))
+            chk.undecided(rule, cw, "completion not in the form `for s in range(n): if s not in d: d[s] = []`: source %s, update %s" % (show(Lm.source), show(up)))
         return
-    chk.ok(rule, gf.where(Lg.node), "grouping: every pair (t, s) appends s under key t, unconditionally (multiplicity kept)")
+    chk.ok(rule, cw, "completion: every s in range(len(%s)) without an entry gets `table[s] = []` (every state has an entry)" % f.params[0])
+    # ---- (2) grouping: one append per pair, multiplicity kept -------------------------------------------------------
+    gw_f = fn_of("list_of_tuples_to_dict_of_lists")
+    pairs_t = None
+    if base_dict[0] == "res":
+        Lg = sx.loops[base_dict[1]]
+        gv = base_dict[2]
+        gacc, ge = ("acc", Lg.id, gv), ("elem", Lg.id)
+        k, val = simp(("idx", ge, C(0))), simp(("idx", ge, C(1)))
+        gwant = simp(("ite", simp(("cmp", "notin", k, gacc)), ("setitem", gacc, k, ("list", ())), gacc))
+        appends = [x for x in Lg.effects if x[1] == "call" and x[2][0] == "mcall" and x[2][2] == "append"]
+        good = [x for x in appends if x[0] == TRUE and x[2][1][0] == "idx" and x[2][1][2] == k and x[2][3] == (val,)]
+        ok_group = Lg.update[gv] == gwant and len(good) == 1 and len(appends) == 1
+    else:
+        Lg = None
+        for L in sx.loops.values():
+            if L.kind == "for" and any(x[1] == "call" and x[2][0] == "mcall" and x[2][2] == "append" and x[2][1][0] == "mcall" and x[2][1][2] == "setdefault"
+                                       and x[2][1][1] == base_dict for x in L.effects):
+                Lg = L
+        if Lg is None:
+            chk.undecided(rule, where, "the table completed by the last loop (`%s`) is not the result of a recognised grouping loop" % show(base_dict)[:80])
+            return
+        ge = ("elem", Lg.id)
+        k, val = simp(("idx", ge, C(0))), simp(("idx", ge, C(1)))
+        appends = [x for x in Lg.effects if x[1] == "call" and x[2][0] == "mcall" and x[2][2] == "append"]
+        good = [x for x in appends if x[0] == TRUE and x[2][1] == ("mcall", base_dict, "setdefault", (k, ("list", ())), ()) and x[2][3] == (val,)]
+        ok_group = len(good) == 1 and len(appends) == 1
+    gwhere = gw_f.where(Lg.node)
+    if not Lg.whole or Lg.has_break or Lg.has_return or Lg.cont != FALSE:
+        chk.violation(rule, gwhere, "the grouping loop does not process every reversed pair (slice / break / continue)", expected="one append per pair", found=norm_stmt(Lg.node),
+                      construct="grouping loop partial")
+        return
+    if not ok_group:
+        if appends:
+            a0 = appends[0]
+            if a0[0] != TRUE or a0[2][3] != (val,):
+                chk.violation(rule, gwhere, "grouping appends `%s` under condition `%s`; specification: table[pair[0]].append(pair[1]) for every pair (multiplicity kept)" % (show(a0[2])[:120], show(a0[0])),
+                              expected="unconditional table[t].append(s) per pair (t, s)", found=show(a0[2])[:140] + " if " + show(a0[0]), construct="grouping append")
+                return
+        chk.undecided(rule, gwhere, "grouping loop not in a recognised form (`if k not in d: d[k] = []; d[k].append(v)` or `d.setdefault(k, []).append(v)`)")
+        return
+    chk.ok(rule, gwhere, "grouping: every pair (t, s) appends s under key t, unconditionally (multiplicity kept)")
+    # ---- (3) pairs: one (target, source) per transition -----------------------------------------------------------------------
     gsrc = Lg.source
+    cf = fn_of("reverse_transition_list_core")
+    if gsrc[0] == "flatten" and gsrc[1][0] == "compr":
+        L1 = sx.loops[gsrc[1][1]]
+        probs = []
+        if L1.source != tl or not L1.whole or not L1.enumerated:
+            probs.append("outer generator iterates `%s`%s, not enumerate(whole transition list)" % (show(L1.source), "" if L1.enumerated else " (not enumerated)"))
+        if L1.filters:
+            probs.append("states are skipped unless `%s`" % show(L1.filters[0]))
+        if L1.elt[0] != "compr":
+            chk.undecided(rule, cf.where(L1.node), "pair construction `%s` not recognised" % show(L1.elt)[:80])
+            return
+        L2 = sx.loops[L1.elt[1]]
+        if L2.source != ("elem", L1.id) or not L2.whole:
+            probs.append("inner generator iterates `%s`, not every transition of the state" % show(L2.source))
+        if L2.filters:
+            probs.append("transitions are skipped unless `%s`" % show(L2.filters[0]))
+        want_pair = ("tup", (simp(("idx", ("elem", L2.id), C(1))), ("pos", L1.id)))
+        if L2.elt != want_pair:
+            probs.append("builds `%s`, specification builds (successor, source) = `%s`" % (show(L2.elt), show(want_pair)))
+        if probs:
+            chk.violation(rule, cf.where(L1.node), "; ".join(probs), expected="for every state s and every transition (_, t) of s: (t, s)", found=show(L2.elt), construct="core pair construction")
+        else:
+            chk.ok(rule, cf.where(L1.node), "pairs: [(t, s) for s, ts in enumerate(whole list) for (_, t) in ts]; no filter")
+        return
     if gsrc[0] != "res":
         chk.undecided(rule, where, "grouping loop source is not the pair list: %s" % show(gsrc))
         return
     Lo = sx.loops[gsrc[1]]
-    cf = ctx.prog.funcs.get("reverse_dfs.py::reverse_transition_list_core", f)
     ov = gsrc[2]
     oup = Lo.update[ov]
     if Lo.source != tl or not Lo.whole:
